@@ -11,12 +11,12 @@
       init_group_gen_spec: init_group_gen = init_group_spec, a heap-free functional program
          phase1 (per entry: type table, application, logic-sig, duplicate id)  ;
          phase2 (per entry: relative indexes, absolute index)  ;  fill_group_relative_indexes.
-   2. init_group_ok_iff: the construction returns iff the DECIDABLE predicate group_cfg_ok holds
+   2. (Lemmas/GroupCfgOk.v) init_group_returns_iff: the construction returns iff the flat BOOLEAN group_cfg_ok holds
          = every txn_type is a key of USER_CONFIG_TRANSACTION_TYPES, every application / logic_sig names a listed
            contract and one of its functions, of the right kind, the ids are pairwise distinct, every relative index
            names an id of the group, the absolute indexes are pairwise distinct;
-      init_group_raises: when it raises, WHICH exception, each with its condition (KeyError = unknown txn_type, which
-      GroupConfigTransaction.from_yaml excludes; the seven TealerException templates).
+      init_raises_*: when it raises, WHICH exception, each with its condition (KeyError = unknown txn_type, which
+      GroupConfigTransaction.from_yaml excludes; the seven TealerException templates); fill_cannot_raise.
    3. init_group_ok_view: when it returns (heap, g), the observable attributes are exactly the model's records:
          view_group heap g = map (cfg_gtxn contracts) entries  (listing order; type through the table; has_logic_sig
          forced when a logic_sig is given; functions by index; relative_indexes = rel_dict of the configured pairs:
